@@ -146,7 +146,9 @@ def read_csv_with_schema_dict(csv_file: str,
             else:  
                 importer_definition = field_mapping[field_name]
                 field_size = importer_definition._field_size
-            column_offsets[i + 1] = column_offsets[i] + field_size * chunk_row_size
+            # never a zero budget (e.g. a categorical field whose only key is ''): the first byte written to such a column
+            # would land outside its region, and doubling a budget of 0 on regrowth never terminates
+            column_offsets[i + 1] = column_offsets[i] + max(field_size, 1) * chunk_row_size
     
     total_rows = read_file_using_fast_csv_reader(csv_file, chunk_row_size, column_offsets, index_map, field_importer_list, stop_after_rows)
 
